@@ -347,6 +347,7 @@ func (s *c17Sys) Close() { s.w.Close() }
 var c17OpList = []engine.Op{
 	c17Op{"create-bucket"}, c17Op{"delete-bucket"}, c17Op{"put"}, c17Op{"delete"}, c17Op{"copy-into"}, c17Op{"multi-delete"},
 	c17Op{"initiate"}, c17Op{"upload-part"}, c17Op{"complete"}, c17Op{"abort"}, c17Op{"put-versioning"}, c17Op{"form-upload"},
+	c17Op{"force-delete-bucket"},
 }
 
 func (s *c17Sys) Ops() []engine.Op { return c17OpList }
@@ -367,6 +368,16 @@ func (s *c17Sys) Apply(op engine.Op) (string, *engine.Violation) {
 		r = s.w.Do(drv.Req{Method: "PUT", Path: "/aaa"})
 		if r.Status == 200 {
 			s.exists = true
+		} else if !s.exists && r.Panic == "" {
+			// a valid name that no bucket has: the create succeeds, whatever came before
+			return respSig(r), viol(sig("C17", string(s.w.Cfg.Kind), "sequence", "create-bucket", "valid-absent-name-refused"), "PUT /aaa (no such bucket exists or is listed) answers %s", r.Short())
+		}
+	case "force-delete-bucket":
+		// (what this request answers is not C17's business; afterwards the bucket is there or it is not)
+		r = s.w.Do(drv.Req{Method: "DELETE", Path: "/aaa", Header: drv.H("x-minio-force-delete", "true")})
+		if s.exists && s.w.Do(drv.Req{Method: "HEAD", Path: "/aaa"}).Status == 404 {
+			s.exists = false
+			s.hasPart, s.upload = false, ""
 		}
 	case "delete-bucket":
 		r = s.w.Do(drv.Req{Method: "DELETE", Path: "/aaa"})
